@@ -174,18 +174,24 @@ def degenerate_to_deterministic(m):
 
 
 # ----------------------------------------------------------------------------- driver
-def _solve(m, jit):
+def _solve(m, jit, coarse=False):
+    import numpy as np
+
     sess = Session(m)
     V = sess.get("solve", jit)(MDL.params(m))
-    return {"n": len(V), "shapes": [_shape_list(v) for v in V], "V": [_flat(v) for v in V]}
+    if coarse:      # large models: multiples of 1/1024 keep TLC's 32-bit arithmetic small (the tolerance is 2^-8)
+        flat = [[MDL.enc(x, quant_den=1024, exact_den=1024) for x in np.asarray(v, dtype=np.float64).ravel()] for v in V]
+    else:
+        flat = [_flat(v) for v in V]
+    return {"n": len(V), "shapes": [_shape_list(v) for v in V], "V": flat}
 
 
 def run_pair(spec):
     out = {k: v for k, v in spec.items() if k not in ("m1", "m2")}
     strip = lambda m: {k: v for k, v in m.items() if k != "meta"}  # noqa: E731
     try:
-        out["o1"] = _solve(spec["m1"], spec.get("jit", True))
-        out["o2"] = _solve(spec["m2"], spec.get("jit", True))
+        out["o1"] = _solve(spec["m1"], spec.get("jit", True), coarse=bool(spec.get("flat")))
+        out["o2"] = _solve(spec["m2"], spec.get("jit", True), coarse=bool(spec.get("flat")))
         out["error"] = False
     except Exception as e:  # noqa: BLE001
         out.update(error=True, cls=type(e).__name__, msg=str(e)[:300], o1={"n": 0, "shapes": [], "V": []}, o2={"n": 0, "shapes": [], "V": []})
